@@ -83,11 +83,11 @@ pub mod env {
         fn as_ref(&self) -> (r: &T)
             ensures r == self.as_ref_spec();
     }
-    pub uninterp spec fn arr2_as_slice(a: &[u8; 2]) -> &[u8];
-    pub broadcast axiom fn ax_arr2_as_slice(a: &[u8; 2])
-        ensures #[trigger] arr2_as_slice(a)@ == a@;
-    impl AsRef<[u8]> for [u8; 2] {
-        open spec fn as_ref_spec(&self) -> &[u8] { arr2_as_slice(self) }
+    pub uninterp spec fn arr_as_slice<const N: usize>(a: &[u8; N]) -> &[u8];
+    pub broadcast axiom fn ax_arr_as_slice<const N: usize>(a: &[u8; N])
+        ensures #[trigger] arr_as_slice(a)@ == a@;
+    impl<const N: usize> AsRef<[u8]> for [u8; N] {
+        open spec fn as_ref_spec(&self) -> &[u8] { arr_as_slice(self) }
         #[verifier::external_body]
         fn as_ref(&self) -> (r: &[u8]) { &self[..] }
     }
@@ -286,7 +286,7 @@ pub mod unit {
     use super::rt::*;
     use super::bytes::{spec_hash, ax_hash_len};
     use super::env::*;
-    broadcast use {super::try_from::axiom_question_mark_calls_from, ax_hash_len, ax_arr2_as_slice, ax_hash_as_slice, ax_vec_as_slice, ax_raw_as_slice, ax_size_at};
+    broadcast use {super::try_from::axiom_question_mark_calls_from, ax_hash_len, ax_arr_as_slice, ax_hash_as_slice, ax_vec_as_slice, ax_raw_as_slice, ax_size_at};
 
     /*@item radix-common/src/crypto/hash_accumulator.rs :: struct HashAccumulator
     @*/
@@ -972,10 +972,11 @@ pub mod unit {
     {
         if hashes.len() == 0 { prefix } else { digest_input(prefix, hashes.drop_last()) + hashes.last().0@ }
     }
-    /// EXPLICIT HYPOTHESIS (never an axiom): the hash function has no collisions
-    pub open spec fn hash_injective() -> bool {
-        forall|a: Seq<u8>, b: Seq<u8>| #![trigger spec_hash(a), spec_hash(b)] spec_hash(a) == spec_hash(b) ==> a == b
-    }
+    /// EXPLICIT HYPOTHESIS (never an axiom, never global): the two GIVEN byte strings are not a hash collision.
+    /// A global "spec_hash is injective" would contradict the fixed 32-byte output (pigeonhole) and make every lemma
+    /// vacuous, so each lemma names exactly the pair(s) of preimages whose non-collision it relies on: read
+    /// "equal identifiers ==> equal contents, OR these two concrete preimages are a Blake2b-256 collision".
+    pub open spec fn no_collision(a: Seq<u8>, b: Seq<u8>) -> bool { spec_hash(a) == spec_hash(b) ==> a == b }
     /// the preimage prefix of every transaction payload hash: 'T', discriminator
     pub open spec fn payload_prefix(discriminator: u8) -> Seq<u8> { seq![0x54u8, discriminator] }
 
@@ -1017,9 +1018,9 @@ pub mod unit {
         }
     }
     /// C32 "changing any field of a hashed part changes the corresponding hash", composite level:
-    /// under `hash_injective`, equal digests (same prefix length) have the same prefix and the same children.
+    /// barring a collision of the two preimages, equal digests (same prefix length) have the same prefix and the same children.
     pub proof fn lemma_digest_commits(p1: Seq<u8>, h1: Seq<Hash>, p2: Seq<u8>, h2: Seq<Hash>)
-        requires hash_injective(), p1.len() == p2.len(),
+        requires no_collision(digest_input(p1, h1), digest_input(p2, h2)), p1.len() == p2.len(),
             spec_hash(digest_input(p1, h1)) == spec_hash(digest_input(p2, h2))
         ensures p1 == p2, h1 == h2
     {
@@ -1027,14 +1028,14 @@ pub mod unit {
     }
     /// contrapositive, the way the property states it: one changed child => changed digest
     pub proof fn lemma_changed_child_changes_digest(p: Seq<u8>, h1: Seq<Hash>, h2: Seq<Hash>, i: int)
-        requires hash_injective(), h1.len() == h2.len(), 0 <= i < h1.len(), h1[i] != h2[i]
+        requires no_collision(digest_input(p, h1), digest_input(p, h2)), h1.len() == h2.len(), 0 <= i < h1.len(), h1[i] != h2[i]
         ensures spec_hash(digest_input(p, h1)) != spec_hash(digest_input(p, h2))
     {
         if spec_hash(digest_input(p, h1)) == spec_hash(digest_input(p, h2)) { lemma_digest_commits(p, h1, p, h2); }
     }
     /// dropping / adding a child changes the digest as well
     pub proof fn lemma_child_count_changes_digest(p: Seq<u8>, h1: Seq<Hash>, h2: Seq<Hash>)
-        requires hash_injective(), h1.len() != h2.len()
+        requires no_collision(digest_input(p, h1), digest_input(p, h2)), h1.len() != h2.len()
         ensures spec_hash(digest_input(p, h1)) != spec_hash(digest_input(p, h2))
     {
         if spec_hash(digest_input(p, h1)) == spec_hash(digest_input(p, h2)) { lemma_digest_commits(p, h1, p, h2); }
@@ -1042,7 +1043,8 @@ pub mod unit {
     /// DOMAIN SEPARATION of payload kinds: an intent hash, a signed-intent hash, a notarized hash ... of any
     /// contents never coincide when the discriminators differ
     pub proof fn lemma_discriminator_separates(d1: u8, h1: Seq<Hash>, d2: u8, h2: Seq<Hash>)
-        requires hash_injective(), spec_hash(digest_input(payload_prefix(d1), h1)) == spec_hash(digest_input(payload_prefix(d2), h2))
+        requires no_collision(digest_input(payload_prefix(d1), h1), digest_input(payload_prefix(d2), h2)),
+            spec_hash(digest_input(payload_prefix(d1), h1)) == spec_hash(digest_input(payload_prefix(d2), h2))
         ensures d1 == d2, h1 == h2
     {
         lemma_digest_commits(payload_prefix(d1), h1, payload_prefix(d2), h2);
@@ -1050,7 +1052,7 @@ pub mod unit {
     }
     /// leaf level: a raw value's hash commits to every byte of its encoding
     pub proof fn lemma_raw_commits(a: Seq<u8>, b: Seq<u8>)
-        requires hash_injective(), spec_hash(a) == spec_hash(b)
+        requires no_collision(a, b), spec_hash(a) == spec_hash(b)
         ensures a == b
     {}
 
@@ -1797,7 +1799,7 @@ pub mod unit {
     /// "changing any field of a hashed part changes the corresponding hash", notarized level:
     /// equal NotarizedTransactionHash ==> same signed-intent hash and same notary-signature hash
     pub proof fn lemma_notarized_hash_commits(a: PreparedNotarizedTransactionV2, b: PreparedNotarizedTransactionV2)
-        requires hash_injective(), id_ok(a), id_ok(b), a.summary.hash == b.summary.hash
+        requires no_collision(a.payload_preimage(), b.payload_preimage()), id_ok(a), id_ok(b), a.summary.hash == b.summary.hash
         ensures a.signed_intent.summary.hash == b.signed_intent.summary.hash, a.notary_signature.summary.hash == b.notary_signature.summary.hash
     {
         lemma_notarized_preimage(a); lemma_notarized_preimage(b);
@@ -1806,7 +1808,7 @@ pub mod unit {
     }
     /// signed-intent level: equal SignedTransactionIntentHash ==> same intent hash and same signature-list hashes
     pub proof fn lemma_signed_intent_hash_commits(a: PreparedSignedTransactionIntentV2, b: PreparedSignedTransactionIntentV2)
-        requires hash_injective(), id_ok(a), id_ok(b), a.summary.hash == b.summary.hash
+        requires no_collision(a.payload_preimage(), b.payload_preimage()), id_ok(a), id_ok(b), a.summary.hash == b.summary.hash
         ensures
             a.transaction_intent.summary.hash == b.transaction_intent.summary.hash,
             a.transaction_intent_signatures.summary.hash == b.transaction_intent_signatures.summary.hash,
@@ -1818,7 +1820,8 @@ pub mod unit {
     }
     /// two levels chained: the notarized hash commits to the transaction-intent hash and all signature hashes
     pub proof fn lemma_notarized_hash_commits_deep(a: PreparedNotarizedTransactionV2, b: PreparedNotarizedTransactionV2)
-        requires hash_injective(), id_ok(a), id_ok(b), id_ok(a.signed_intent), id_ok(b.signed_intent), a.summary.hash == b.summary.hash
+        requires no_collision(a.payload_preimage(), b.payload_preimage()), no_collision(a.signed_intent.payload_preimage(), b.signed_intent.payload_preimage()),
+            id_ok(a), id_ok(b), id_ok(a.signed_intent), id_ok(b.signed_intent), a.summary.hash == b.summary.hash
         ensures
             a.signed_intent.transaction_intent.summary.hash == b.signed_intent.transaction_intent.summary.hash,
             a.signed_intent.transaction_intent_signatures.summary.hash == b.signed_intent.transaction_intent_signatures.summary.hash,
@@ -1830,12 +1833,12 @@ pub mod unit {
     }
     /// leaf level: the notary signature's identifier commits to every byte of its encoded body
     pub proof fn lemma_notary_signature_commits(a: PreparedNotarySignatureV2, ia: Seq<u8>, sa: int, ea: int, b: PreparedNotarySignatureV2, ib: Seq<u8>, sb: int, eb: int)
-        requires hash_injective(), a.body_rel(ia, sa, ea), b.body_rel(ib, sb, eb), a.summary.hash == b.summary.hash
+        requires no_collision(ia.subrange(sa, ea), ib.subrange(sb, eb)), a.body_rel(ia, sa, ea), b.body_rel(ib, sb, eb), a.summary.hash == b.summary.hash
         ensures ia.subrange(sa, ea) == ib.subrange(sb, eb)
     {}
     /// domain separation: a signed-intent identifier never equals a notarized-transaction identifier
     pub proof fn lemma_signed_vs_notarized_distinct(a: PreparedSignedTransactionIntentV2, b: PreparedNotarizedTransactionV2)
-        requires hash_injective(), id_ok(a), id_ok(b)
+        requires no_collision(a.payload_preimage(), b.payload_preimage()), id_ok(a), id_ok(b)
         ensures a.summary.hash != b.summary.hash
     {
         lemma_signed_intent_preimage(a); lemma_notarized_preimage(b);
